@@ -22,7 +22,10 @@ func init() {
 			"NOT decided: conservation of items over whole histories (no loss/duplication across operations follows from container/list's contract plus these single-operation facts, informally).",
 		Assumptions: []string{"container/list, container/heap, eapache/queue behave as documented"},
 		Floors:      map[string]int{"C12.guarded-by": 20, "C12.add": 5, "C12.prior-add": 5, "C12.pop": 8, "C12.close-state": 6, "C12.syncq": 3, "C12.priq": 3},
-		Run:         func(c *Ctx) { runQueues(c, "C12") },
+		Run: func(c *Ctx) {
+			runQueues(c, "C12")
+			c.checkOptionTargets("C12.add", "syncx/pipe/q", "syncx/pipe/mq", "syncx/pipe/mux", "syncx/pipe/async")
+		},
 	})
 	register(&Property{
 		ID:       "C13",
@@ -351,6 +354,8 @@ func (q *qCtx) run() {
 					q.checkAdd(t, name, li, false)
 				case "prior":
 					q.checkAdd(t, name, li, true)
+				case "anyway":
+					q.checkAnywayPushes(t, name, li)
 				case "pop":
 					q.checkPop(t, name, true)
 				case "popanyway":
@@ -361,6 +366,17 @@ func (q *qCtx) run() {
 				q.checkWake(t, name)
 				q.checkWaitLoop(t, name)
 				q.checkSpurious(t, name)
+				// nobody sleeps while holding the queue mutex: a producer that waits for room with the lock held keeps
+				// out the only parties that can make room (consumers) or end the wait (Close)
+				for i, e := range t.Events {
+					if e.Kind == EvCall && e.callName() == "time.Sleep" {
+						for _, h := range t.heldLocks(i) {
+							if _, is := lockIsField(h, q.lock); is {
+								c.violated("C13.lock-released", name, e.Pos, "the queue mutex is held across time.Sleep: while this caller waits, no consumer can take an item (so a full queue never gets room), blocked consumers that were woken stay stuck re-acquiring the mutex, and Close does not return", c.witness(t, i)...)
+							}
+						}
+					}
+				}
 				// a consumer or producer that returns with the queue mutex held stops every other party: the woken
 				// consumers can never re-acquire it inside Cond.Wait
 				if t.End == EndReturn {
@@ -382,6 +398,8 @@ func (q *qCtx) roleOf(m string) (string, int) {
 			return "add", i
 		case l.prior:
 			return "prior", i
+		case l.anyway:
+			return "anyway", i
 		}
 	}
 	switch m {
@@ -391,6 +409,31 @@ func (q *qCtx) roleOf(m string) (string, int) {
 		return "popanyway", -1
 	}
 	return "", -1
+}
+
+// checkAnywayPushes: the retrying add (sleep while full, then add) stores an item under exactly the conditions of
+// the plain add — in the critical section of the push itself the queue was seen open and below its bound. A
+// version that tests `closed` once and then waits for room across unlock/lock pushes onto a closed queue.
+func (q *qCtx) checkAnywayPushes(t *Trace, name string, li int) {
+	c := q.c
+	for pi, e := range t.Events {
+		if !(e.Kind == EvCall && strings.HasPrefix(e.callName(), "(*container/list.List).") && !pureContainerMethods[e.callName()]) {
+			continue
+		}
+		k := q.knowledgeAt(t, pi, t.factsBefore(pi))
+		switch {
+		case q.listCall(e, "PushBack") != li:
+			c.violated("C12.add", name, e.Pos, "the retrying add mutates the queue with "+e.callName()+" instead of PushBack on the "+q.sp.lists[li].field+" list", c.witness(t, pi)...)
+		case len(e.Args) < 2 || !isParamOrItsCell(t, e.Args[1].strip(), t.Params[1]):
+			c.violated("C12.add", name, e.Pos, "the value pushed is not the caller's item", c.witness(t, pi)...)
+		case !k.closedKnown || k.closed:
+			c.violated("C12.add", name, e.Pos, "the item is added without having observed `closed == false` in the critical section of the push (the test was made before the lock was released to wait for room): a closed queue accepts items", c.witness(t, pi)...)
+		case !(k.unbounded[li] || (k.fullKnown[li] && !k.full[li])):
+			c.violated("C12.add", name, e.Pos, "the item is added without `max == 0 or Len < max` being established in the critical section of the push: the bounded queue exceeds its capacity", c.witness(t, pi)...)
+		default:
+			c.holds("C12.add", name, t.Entry.Pos(), "pushes only under open and below the bound, in the critical section of the push")
+		}
+	}
 }
 
 // checkAdd: rule 2.
@@ -1013,4 +1056,26 @@ func (q *qCtx) latestIsFront(t *Trace, i, li int) bool {
 		}
 	}
 	return false
+}
+
+// isParamOrItsCell: v is the parameter p, or the content of a local variable that holds p and nothing else on this
+// path (a parameter captured by a function literal lives in such a cell).
+func isParamOrItsCell(t *Trace, v, p *Sym) bool {
+	if v.Key() == p.Key() {
+		return true
+	}
+	if v.Kind != KInit || v.Args[0].Kind != KAlloc {
+		return false
+	}
+	cell := v.Args[0]
+	stores, good := 0, true
+	for _, e := range t.Events {
+		if e.Kind == EvStore && e.Addr.Kind == KAlloc && e.Addr.ID == cell.ID {
+			stores++
+			if e.Val.strip().Key() != p.Key() {
+				good = false
+			}
+		}
+	}
+	return stores > 0 && good
 }
